@@ -1,7 +1,5 @@
-\* strict design: every accepted model round-trips; tag names do not interfere
 SPECIFICATION Spec
 CONSTANTS
   Dev = {}
-  Models <- MCModels
 INVARIANTS RoundTrip StepsAreOutcome OneContent TagIsolation
 CHECK_DEADLOCK FALSE
